@@ -26,6 +26,8 @@ METHODS = ('start', 'E', 'transitions', 'deltaE_trial', 'update')
 
 def run(model, rep, tier):
     rep.explanation = __doc__.strip()
+    from ._common import caches_for
+    caches_for(model, rep, 'C35')
     rep.not_decided = 'equality of energies / transitions / Metropolis traces between the two samplers'
     rep.rule('spec-table', 'spec fields = __init__ parameters = assigned attributes = MonteCarloSampler_param keys')
     rep.rule('copy-order', 'copy() passes self.<field>[.copy()] for every field in __init__ order')
